@@ -91,7 +91,7 @@ CLAIMED = {
               "only as automatic locals (no heap, member, static, temporary, copy or move). By the C++ destructor guarantee "
               "the shape is then restored on every exit path, normal or exceptional, at every throw point. Also: declarations "
               "insert into the innermost scope only; saved parameters are cleared and conversion saves toggled exactly when "
-              "the call depth crosses 0. The optimizer removes a block's scope only when nothing evaluated in the block declares into it (C02 R2.2 re-decided; the eval()-declares-into-a-scopeless-block finding is listed for this property too). Not decided: value-level visibility of completed top-level declarations."),
+              "the call depth crosses 0. The optimizer removes a block's scope only when nothing evaluated in the block declares into it (C02 R2.2 re-decided; the eval()-declares-into-a-scopeless-block finding is listed for this property too). The shape counters move only by the paired primitives: no absolute write, and the saved-parameter list is emptied only in pop_function_call. Not decided: value-level visibility of completed top-level declarations."),
         technique="interprocedural effect summaries over resolved call graph + who-may-call/who-may-write + RAII typestate (automatic-storage-only) rules",
         ref="DESIGN.md section 4 C09"),
     "C12": dict(
@@ -101,7 +101,7 @@ CLAIMED = {
               "front/back/pop/operator[]/erase(it)/insert(it), iterator * ++ --, std::advance and built-in subscript is "
               "dominated by a test on the operated object whose failing arm throws; positions begin()+n are used by erase "
               "only under 0 <= n < distance and by insert only under 0 <= n <= distance (exact bounds, no off-by-one). "
-              "Key lookups: a value is handed out through an iterator from find() only under != end(), through one from lower_bound()/upper_bound() only with a key-equivalence test as well; the library has no such site today, so the matcher is exercised on a fixture (fixtures/c12_lookup.cpp) on every run and must give the expected verdicts. Not decided: step-by-step agreement of results with a list/dict/str model (holds by construction where the "
+              "Key lookups: a value is handed out through an iterator from find() only under != end(), through one from lower_bound()/upper_bound() only with a key-equivalence test as well; the library has no such site today, so the matcher is exercised on a fixture (fixtures/c12_lookup.cpp) on every run and must give the expected verdicts. The script-level half of insert_at stores a copy or an un-marked temporary (R12.5 = C17 R17.10). Not decided: step-by-step agreement of results with a list/dict/str model (holds by construction where the "
               "std member itself is bound); structural modification during iteration is excluded by the property."),
         technique="who-may-bind + check-dominates-use rules (structured dominance, comparison-fact extraction) over all template instantiations",
         ref="DESIGN.md section 4 C12"),
@@ -177,7 +177,7 @@ CLAIMED = {
               "shared parser object parses with a fresh local parser; no Boxed_Value with static storage duration is shared "
               "mutable state - three objects (the true/false/void singletons) fail this and are listed known findings "
               "with a ThreadSanitizer replay. use()'s "
-              "exactly-once clause is decided in C19 R19.3. Every lock object on an engine mutex is constructed in the blocking form (no try_to_lock/defer_lock/adopt_lock, no try_lock/owns_lock): a reader that could not get the lock has only stale per-thread data to fall back on, and the lock-held reasoning above presupposes it. Not decided: per-thread results equal single-threaded runs; "
+              "exactly-once clause is decided in C19 R19.3. Every lock object on an engine mutex is constructed in the blocking form (no try_to_lock/defer_lock/adopt_lock, no try_lock/owns_lock): a reader that could not get the lock has only stale per-thread data to fall back on, and the lock-held reasoning above presupposes it. Closures stored in compiled nodes of the shared syntax tree capture only immutable plain values (R13.10 = C08 R8.7): no evaluation state is shared between threads through the tree. Not decided: per-thread results equal single-threaded runs; "
               "registration visibility timing; races the script itself creates on shared global values."),
         technique="lock-set analysis with requirement propagation over the resolved call graph; guarded-by table; mutable/field inventory",
         ref="DESIGN.md section 4 C13"),
@@ -207,7 +207,7 @@ CLAIMED = {
               "evaluation whose element values all pass through clone_if_necessary; `var x = e` and first assignment clone; "
               "no Constant node holds a value whose type contains Boxed_Value handles (constness of a boxed container is "
               "shallow, its elements would be shared by every evaluation). "
-              "The constants' origin rule (C07 R7.8, including the arithmetic kernel through which the optimizer folds literals: fresh results only as const_var, never mutable or marked as a temporary a declaration may adopt) is re-decided and reported here as R8.5. Every in-place write of the evaluator is preceded by the const test on its target (C07 R7.4 re-decided and reported here as R8.6). Not decided: equality of results of repeated calls on generated functions (follows from the above plus C07)."),
+              "The constants' origin rule (C07 R7.8, including the arithmetic kernel through which the optimizer folds literals: fresh results only as const_var, never mutable or marked as a temporary a declaration may adopt) is re-decided and reported here as R8.5. Every in-place write of the evaluator is preceded by the const test on its target (C07 R7.4 re-decided and reported here as R8.6). Closures stored in compiled nodes capture only immutable plain values by copy (R8.7). Not decided: equality of results of repeated calls on generated functions (follows from the above plus C07)."),
         technique="class-hierarchy-wide const/mutable inventory, who-may-write rule over resolved accesses, def-use checks",
         ref="DESIGN.md section 4 C08"),
     "C10": dict(
@@ -291,7 +291,7 @@ CLAIMED = {
               "finding with replay; (4) every call node that opens a call frame "
               "saves its evaluated arguments before dispatch (two documented exemptions); (5) Object_Data::get: owning forms "
               "store a shared_ptr and are not references, non-owning forms are marked as references, the cached pointer "
-              "comes from the stored object. (6) the releasing side: every scope/frame opened is closed on every exit (the C09 rules R9.1-R9.3 re-run and reported here: an unclosed scope keeps its locals alive, a double close releases the caller's); (7) top-level statements are evaluated inside a call frame so that saved arguments are not released while the statement consuming a reference result is still running - this obligation fails on the current tree and is a listed known finding with a valgrind replay (`var c = (a + b)[5]` at top level). (8) the evaluator's scope guard attaches pending conversion temporaries to the current saved-argument list before it pushes a new one, so a converted argument lives for its C++ call also when that call runs a script callback; (9) the is-a-temporary mark (which lets a declaration adopt a box without copying) is put only on boxes that own their object - fails for const-reference results of C++ functions on the current tree, listed known finding with replay. (10) pending conversion temporaries are dropped only by take_saves (result put on a saved-argument list) or by the guard that enabled the saves itself. Not decided: destruction counts/times on generated programs; references that "
+              "comes from the stored object. (6) the releasing side: every scope/frame opened is closed on every exit (the C09 rules R9.1-R9.3 re-run and reported here: an unclosed scope keeps its locals alive, a double close releases the caller's); (7) top-level statements are evaluated inside a call frame so that saved arguments are not released while the statement consuming a reference result is still running - this obligation fails on the current tree and is a listed known finding with a valgrind replay (`var c = (a + b)[5]` at top level). (8) the evaluator's scope guard attaches pending conversion temporaries to the current saved-argument list before it pushes a new one, so a converted argument lives for its C++ call also when that call runs a script callback; (9) the is-a-temporary mark (which lets a declaration adopt a box without copying) is put only on boxes that own their object - fails for const-reference results of C++ functions on the current tree, listed known finding with replay. (10) pending conversion temporaries are dropped only by take_saves (result put on a saved-argument list) or by the guard that enabled the saves itself. (11) nothing with static or thread storage duration can own objects created on behalf of a script (C14 R14.1 re-decided; the three literal singletons fail here too and are listed known findings). Not decided: destruction counts/times on generated programs; references that "
               "host-registered C++ functions return into host-owned objects; the range()/front() route of ranged-for."),
         technique="referent classification of non-owning boxes (intraprocedural + one call level), ownership rules, sibling agreement, must-precede and guard rules, overload table check",
         ref="DESIGN.md section 4 C11"),
@@ -322,7 +322,7 @@ CLAIMED = {
               "(:=, &) is assigned, stepped, mutated through a member or handed to back_inserter/bind(push_back) outside the "
               "six functions whose contract is to mutate; no numeric parameter is compared with an unsigned size() (a negative "
               "count would wrap); on the C++ side Bidir_Range::pop_front/pop_back move only the "
-              "view's iterators. Callback argument roles: every application of a callback parameter, direct or through another prelude function it is handed to, passes (element of input k / accumulator / result of another callback) in the same positions, compared with a reference table (foldl f(elem, acc); reduce f(acc, elem); zip_with f(x_i, y_i)). No function returns one of its parameters, `this`, or an alias of one (min/max select an argument by contract). Not decided: results (counts, order of combination), behaviour of the C++ functions called."),
+              "view's iterators. Callback argument roles: every application of a callback parameter, direct or through another prelude function it is handed to, passes (element of input k / accumulator / result of another callback) in the same positions, compared with a reference table (foldl f(elem, acc); reduce f(acc, elem); zip_with f(x_i, y_i)). No function returns one of its parameters, `this`, or an alias of one (min/max select an argument by contract). What is handed to a by-reference store (insert_ref_at, push_back_ref) is clone(x), or x after x.reset_var_return_value() (R17.10). Not decided: results (counts, order of combination), behaviour of the C++ functions called."),
         technique="script-level lint: independent subset parser + abstract interpretation (element lower bounds, per-iteration counters) + alias-aware who-may-mutate rule; one supporting rule over the C++ view class",
         ref="DESIGN.md section 4 C17 and 8.5"),
 }
